@@ -556,7 +556,9 @@ func c04BadUTF8(r *core.Rand, src string) string {
 // c04LexFaults are texts that are not tokens (one per way a lexeme can fail, several lengths of each).
 var c04LexFaults = []string{"0123", "-007", "00", "01", "-00.5", "0009e1", "1.", "1.x", "-", "-x", "1e", "1e+", "2.5e-", "1.5x", "12abc", "1.2.3", "1..2", "0x1F", ".", "..", ". ..",
 	"?", "~", "%", "^", "\u0007", "\"unterminated", "\"bad \\q escape\"", "\"\\u12G4\"", "\"\\u12\"", "\"tab\there \\x\"", "\"line\nbreak\"", "\"\"\"never closed", "\"\"\"ctl \u0001 \"\"\"",
-	"\"ctl \u0002\"", "\"é\\z\"", "0123456789", "-0000", "1e٣"}
+	"\"ctl \u0002\"", "\"é\\z\"", "0123456789", "-0000", "1e٣",
+	// a control character on a later line of a block string (the error is on THAT line), after seeded change C04-wave10-A
+	"\"\"\"first\n second \u0001 x\n\"\"\"", "\"\"\"a\r\nb\n\n   \u0003\"\"\"", "\"\"\"\n\n\u0000", "\"\"\"é\r \u0008é\"\"\""}
 
 // c04LexFault puts one such text in front of a token of the source (or at its end).
 func c04LexFault(r *core.Rand, src string) string {
